@@ -694,7 +694,11 @@ func (w *World) RunCaller(parent context.Context, cc grpc.ClientConnInterface, p
 	done := make(chan struct{})
 	if len(p.CallerSend) > 0 {
 		simrt.Go("caller.sender", func() {
-			c.exec("cs", p.CallerSend)
+			if p.Role == "interest" {
+				interestSender(func() { c.exec("cs", p.CallerSend) })
+			} else {
+				c.exec("cs", p.CallerSend)
+			}
 			close(done)
 		})
 	} else {
